@@ -79,6 +79,33 @@ def pick_inside(rng, sut, element):
     return uniq[:2]
 
 
+def degenerate_enums_only(doc):
+    """F42 predicate: the document holds an `enum` that is empty or repeats a member (the DSL accepts both,
+    the metaschema neither) and is a valid schema once those enums are replaced."""
+    changed = [0]
+
+    def repair(node):
+        if isinstance(node, dict):
+            out = {}
+            for key, val in node.items():
+                if key == "enum" and isinstance(val, list) and (
+                        not val or any(refmodel.json_eq(a, b) for i, a in enumerate(val) for b in val[:i])):
+                    out[key] = [None]
+                    changed[0] += 1
+                else:
+                    out[key] = repair(val)
+            return out
+        if isinstance(node, list):
+            return [repair(val) for val in node]
+        return node
+
+    repaired = repair(doc)
+    try:
+        return bool(changed[0]) and refmodel.metaschema_valid(repaired)
+    except Exception:  # pylint: disable=broad-except
+        return False
+
+
 def def_key(rng, k):
     """Key of a caller-supplied definition: the caller's choice, any string (a reference to it is a JSON
     pointer, in which `/` and `~` are escaped)."""
@@ -112,8 +139,7 @@ def check_tree(ctx, sut, element, extra_elements, definitions, model_schema, val
     if not meta_ok:
         # F42: `enum=[]` (nothing is accepted) is written as "enum": [], which Draft 6 does not allow
         ctx.witness("not_metaschema_valid", case, f"document is not a valid Draft-6 schema: {text[:400]}",
-                    finding="F42" if '"enum": []' in text and refmodel.metaschema_valid(
-                        json.loads(text.replace('"enum": []', '"enum": [null]'))) else None)
+                    finding="F42" if degenerate_enums_only(json.loads(text)) else None)
         return
     ctx.count("metaschema.valid")
     try:
@@ -202,7 +228,7 @@ def run_shard(ctx):
             if idx % 40 == 7 and isinstance(spec.get("kw"), dict):
                 # constructible through the DSL, not writable in a schema document: the empty enum
                 spec["kw"].pop("const", None)
-                spec["kw"]["enum"] = []
+                spec["kw"]["enum"] = rng.choice([[], ["a", "a"], [1, 1.0, 2]])
                 ctx.count("shape.empty_enum")
             try:
                 element = gen_dsl.build(spec)
